@@ -51,7 +51,8 @@ impl HashMap<String, Location> {
     { unimplemented!() }
     #[verifier::external_body]
     pub fn insert(&mut self, k: String, v: Location) -> (r: Option<Location>)
-        ensures final(self)@ == old(self)@.insert(k@, v)
+        ensures final(self)@ == old(self)@.insert(k@, v),
+                r == (if old(self)@.contains_key(k@) { Some(old(self)@[k@]) } else { None::<Location> }),
     { unimplemented!() }
 }
 // D5: `args.to_owned()` (slice -> Vec, element-wise clone)
